@@ -159,6 +159,7 @@ GROUPS = {
                   "leaf_caret_text_1": "text token \"^x\", x any ASCII byte, through both loaders",
                   "leaf_caret_text_2": "text token \"^xy\", x, y any ASCII bytes, through both loaders",
                   "leaf_kind_1": "any 1-byte ASCII non-text string token: same kind of object from both loaders",
+                  "leaf_kind_bare_caret": "the bare token \"^\" (empty text): same kind of object from both loaders",
                   "leaf_kind_2": "any 2-byte ASCII non-text string token: same kind of object (which control command / native function / glue / rejection)",
                   "leaf_kind_3": "any 3-byte ASCII non-text string token: same kind of object from both loaders",
                   "leaf_str1": "1-byte ASCII string token", "leaf_str2": "2-byte ASCII string token", "leaf_str3": "3-byte ASCII string token"},
